@@ -111,7 +111,7 @@ def classify_call(ptypes, rtypes, args, spec, impl):
     args_nan = any(G.is_nan(t, b) for t, b in zip(ptypes, args))
     args_inf = any(G.is_inf(t, b) for t, b in zip(ptypes, args))
     if impl[0] in ("timeout",) or impl[0].startswith("crash-"):
-        return impl[0]
+        return ("trap-as-" if spec[0] == "trap" and impl[0] != "timeout" else "") + impl[0]
     if spec[0] == "trap":
         if impl[0] == "exc":
             return None if impl[1] in X.TRAP_NAMES else "trap-as-" + impl[1]
@@ -184,6 +184,9 @@ def evaluate(task, target, job, parsed, report, failed_ops=None):
         else:
             cls = "trap-missing" if ji["inst"] == "ok" else ("trap-as-" + ji.get("name", ji["inst"]))
             report(f"{target}:{name0}:instantiate-{cls}", f"instantiation must trap ({inst}), ppci: {ji}", dict(case0, module=d, calls=[]))
+        return cnt
+    if ji["inst"] == "timeout":
+        cnt["skipped_slow_instantiate"] = 1      # compile time under load, not a verdict
         return cnt
     if ji["inst"] != "ok":
         cls = "raises-" + ji["name"] if ji["inst"] == "exc" else ji["inst"]
